@@ -113,6 +113,8 @@ func GetDocCommentOn(file *ast.File, obj types.Object) (cg *ast.CommentGroup, cl
 		return nil, func() {}
 	}
 
+	// Only the declaration of obj itself can carry its doc comment: never climb to an
+	// enclosing declaration or to the package doc comment of the file.
 	for _, node := range nodes {
 		switch n := node.(type) {
 		case *ast.GenDecl:
@@ -123,6 +125,7 @@ func GetDocCommentOn(file *ast.File, obj types.Object) (cg *ast.CommentGroup, cl
 					}
 				}
 			}
+			return nil, func() {}
 		case *ast.FuncDecl:
 			if n.Doc != nil {
 				return n.Doc, func() {
@@ -131,6 +134,7 @@ func GetDocCommentOn(file *ast.File, obj types.Object) (cg *ast.CommentGroup, cl
 					}
 				}
 			}
+			return nil, func() {}
 		case *ast.TypeSpec:
 			if n.Doc != nil {
 				return n.Doc, func() {
@@ -147,14 +151,7 @@ func GetDocCommentOn(file *ast.File, obj types.Object) (cg *ast.CommentGroup, cl
 					}
 				}
 			}
-		case *ast.File:
-			if n.Doc != nil {
-				return n.Doc, func() {
-					if len(n.Doc.List) == 0 {
-						n.Doc = nil
-					}
-				}
-			}
+			return nil, func() {}
 		}
 	}
 	return nil, func() {}
